@@ -53,6 +53,8 @@ def t_items(pc, E):
 def build(pc, E, canary=None):
     pc.E = E
     pc.add_functions(E, TARGETS)
+    import contracts.flaw as F
+    F.verify_serve_error_app(pc, E)
     t_items(pc, E)
     if canary is not None:
         return
